@@ -257,11 +257,12 @@ func (o c08Op) String() string {
 
 // c08World is a compiled bundle plus the shared inputs of a history.
 type c08World struct {
-	reg   *template.Registry
-	tofu  *soyhtml.Tofu
-	datas []data.Map
-	ij    data.Map
-	msgs  *fakeBundle
+	reg     *template.Registry
+	tofu    *soyhtml.Tofu
+	datas   []data.Map
+	ij      data.Map
+	ijFirst data.Map // injected before ij by some renders (and replaced by it)
+	msgs    *fakeBundle
 	// prov is a catalogue written as a PO file and loaded by the library's own loader (locale fr only: fr_CA, fr-BE ...
 	// reach it through the locale fallback); nil when the bundle has no message a PO file can carry
 	prov  soymsg.Provider
@@ -329,11 +330,16 @@ func newWorld(files []srcFile, globals map[string]ref.Value, datas []map[string]
 		return nil, err
 	}
 	w := &c08World{reg: reg, tofu: soyhtml.NewTofu(reg), msgs: translationsWithPlurals(reg), prov: realCatalogue(reg), jsgen: soyjs.NewGenerator(reg)}
+	// the locale the bundle reports: left-to-right, right-to-left and unknown ones (the same for every world of one bundle)
+	if len(files) > 0 {
+		w.msgs.locale = []string{"xx", "ar_EG", "en_US", "he", "fa_IR", "ur", "zh-Hant"}[fw.HashStr(files[0].Text)%7]
+	}
 	for _, d := range datas {
 		w.datas = append(w.datas, toDataMap(d))
 	}
 	if ij != nil {
 		w.ij = toData(*ij).(data.Map)
+		w.ijFirst = data.Map{"user": data.String("first"), "onlyInFirst": data.Int(1), "nums": data.List{data.Int(99)}}
 	}
 	return w, nil
 }
@@ -358,6 +364,10 @@ func (w *c08World) exec(o c08Op) (out string, err error) {
 		armRenderBudget()
 		r := w.tofu.NewRenderer(o.tmpl)
 		if o.ij && w.ij != nil {
+			if (o.data+len(o.tmpl))%3 == 0 {
+				// injected twice: the later map is the one in force, and neither is touched
+				r.Inject(w.ijFirst)
+			}
 			r.Inject(w.ij)
 		}
 		if o.msgs {
@@ -502,7 +512,7 @@ func init() {
 				var d [4]uint64
 				d[0] = mon.Digest(w.reg)
 				d[1] = mon.Digest(w.datas)
-				d[2] = mon.Digest(w.ij)
+				d[2] = mon.Digest(w.ij) ^ (mon.Digest(w.ijFirst) * 31)
 				d[3] = mon.Digest(w.msgs)
 				return d
 			}
